@@ -76,3 +76,20 @@ fn emit_complete_labels() {
     kani::assume(is_label_kind(&stmt));
     check_emit(stmt);
 }
+
+/// COMPLETE (loop-free, full domain): opcode facts of the encoding used by the Verus lemma lemma_enc_opcode (U-EVAL)
+#[kani::proof]
+fn enc_opcode_complete() {
+    let st = any_stmt();
+    let line: u16 = kani::any();
+    if matches!(st, AirStmt::RawWord { .. }) { return; }
+    if let Some(w) = enc_ref(&st, line) {
+        let op = w >> 12;
+        let stack_kind = matches!(st, AirStmt::Push { .. } | AirStmt::Pop { .. } | AirStmt::Call { .. } | AirStmt::Rets);
+        assert!((op == 13) == stack_kind);
+        match st {
+            AirStmt::Trap { trap_vect } => assert!(op == 15 && (w & 0xFF) == trap_vect as u16),
+            _ => assert!(op != 15),
+        }
+    }
+}
